@@ -57,7 +57,9 @@ JudgeSolve(e, again) ==
     LET s == e.x
         pred == series'[s]
         hyp == AsFound_VarListCached \/ AsFound_TraceBreaksFunctions \/ Hyp_SharedFunctions \/ Hyp_RhsCachedByName
+               \/ Hyp_SteadyOneShot
     IN IF pred.ok /\ pred.full /\ pred.keys = SeriesKeys(block'[s]) /\ pred.body = pred.own /\ pred.eqs = block'[s]
+          /\ pred.ss = pred.want
        THEN IF ~e.same_keys /\ parses'[s] > 1 THEN Prop("C17_ReparseClean")
             ELSE IF ~e.ok THEN Prop("C17_HistoryIndependent")
             ELSE IF ~e.full /\ parses'[s] > 1 THEN Prop("C17_ReparseClean")
@@ -65,6 +67,7 @@ JudgeSolve(e, again) ==
             ELSE IF ~e.same_keys \/ ~e.full \/ ~e.same_vals THEN Prop("C17_HistoryIndependent")
             ELSE IF SeqToSet(e.varlist) # varList'[s] THEN Drift("variable_list")
             ELSE IF e.nk # nK'[s] THEN Drift("exogenous_k_entries")
+            ELSE IF e.steady # steady'[s] THEN Drift("steady_option")
             ELSE JudgeProcess(e)
        ELSE IF ~hyp
        THEN \* the block calls a function this solver was never given: alone it raises NameError, so it must here
@@ -90,6 +93,8 @@ Reset ==
     /\ func' = [s \in Solvers |-> NoFunc]
     /\ reg' = [s \in Solvers |-> NoFunc]
     /\ rhsFrom' = [s \in Solvers |-> NoBlock]
+    /\ steady' = [s \in Solvers |-> FALSE]
+    /\ wantSteady' = [s \in Solvers |-> FALSE]
     /\ nK' = [s \in Solvers |-> 0]
     /\ parses' = [s \in Solvers |-> 0]
     /\ traceStep' = [x \in Holders |-> 0]
@@ -127,6 +132,9 @@ TraceNext ==
           /\ verdict' = Worse(verdict, JudgeStep(e))
        \/ /\ e.ev = "AddFunction"
           /\ AddFunction(e.x, e.b)
+          /\ verdict' = Worse(verdict, JudgeAux(e))
+       \/ /\ e.ev = "SetSteady"
+          /\ SetSteady(e.x, e.k = 1)
           /\ verdict' = Worse(verdict, JudgeAux(e))
        \/ /\ e.ev = "Solve"
           /\ Solve(e.x)
